@@ -194,6 +194,10 @@ func c09Scenario(c *choice.Ctx, rep *report.R) {
 				rep.Count("boundary_exact_size_produced", 1)
 			} else if delta > 0 && omitted > 0 {
 				rep.Count("boundary_over_limit_truncated", 1)
+			} else if delta <= 0 && omitted > 0 {
+				// the complete response, as this very listener encodes it (measured by the two probes), is limit+delta <= limit octets
+				// long: it fits, nothing may be left out
+				fail("boundary:omitted-though-it-fits", fmt.Sprintf("the complete response is %d octets (limit %d) and fits, yet %d record(s) were left out and the response is %d octets", limit+delta, limit, omitted, len(raw)))
 			} else {
 				rep.Count("boundary_composition_off", 1)
 				rep.Note(fmt.Sprintf("boundary composition off: %s => %d octets, %d omitted", desc, len(raw), omitted))
